@@ -185,9 +185,18 @@ def gen_ty0(rng, sch: Schema, depth: int, lower_classes: list, extras: bool):
     if r < 0.56:
         if not UNION_IN_MODEL:
             sch.model = False
-        if not WIRE_SIDE[0] and rng.random() < 0.3:
+        if not WIRE_SIDE[0] and (extras or rng.random() < 0.3):
             return gen_union(rng, sch, depth, lower_classes)
-        return gen_union_containers(rng, sch, lower_classes)
+        for _ in range(20):
+            u = gen_union_containers(rng, sch, lower_classes)
+            if WIRE_SIDE[0]:
+                return u
+            try:        # encode side: the classification of union findings relies on the Coq flags
+                coq_union_pack(u, sch)
+                return u
+            except ValueError:
+                continue
+        return gen_union(rng, sch, depth, lower_classes)
     if r < 0.66:
         o = rng.choice(["list", "list", "list", "set", "frozenset", "deque", "Sequence", "MutableSequence",
                         "AbstractSet", "MutableSet", "list", "set"])
@@ -271,7 +280,7 @@ def gen_union_containers(rng, sch, lower_classes):
     members = []
     for _ in range(rng.choice([1, 1, 2])):
         m = container_member(rng, sch, lower_classes)
-        if rng.random() < 0.15 and m[0] in WRAPPABLE:
+        if WIRE_SIDE[0] and rng.random() < 0.15 and m[0] in WRAPPABLE:
             m = add_wrapper(sch, m, rng.choice(["annotated", "newtype", "alias"]))
         if m not in members:
             members.append(m)
@@ -361,12 +370,15 @@ def gen_schema(rng, depth: int, extras: bool, want_root_base=None) -> Schema:
                 t = ("opt", t)
             fields.append((f"f{nf}", t))
         classes[i] = {
-            "name": f"C{i}", "base": base,
-            "sup": rng.random() < 0.4,
+            "name": f"C{i}", "base": base, "_defaults_pending": True,
+            "sup": rng.random() < 0.4, "lazy": rng.random() < 0.2,
             "dialect": (rng.randrange(nd) if rng.random() < 0.55 else None),
             "fields": fields,
         }
     sch.classes = classes
+    for c in sch.classes:
+        c.pop("_defaults_pending", None)
+        add_defaults(rng, c)
     return sch
 
 
@@ -409,8 +421,10 @@ def gen_schema_focus(rng) -> Schema:
             elif wrap == "opt":
                 t = ("opt", t)
             fields.insert(rng.randrange(len(fields) + 1), ("g", t))
-        sch.classes.append({"name": f"C{i}", "base": base, "sup": rng.random() < 0.4,
+        sch.classes.append({"name": f"C{i}", "base": base, "sup": rng.random() < 0.4, "lazy": rng.random() < 0.3,
                             "dialect": (rng.randrange(nd) if rng.random() < 0.5 else None), "fields": fields})
+    for c in sch.classes:
+        add_defaults(rng, c)
     return sch
 
 
@@ -554,20 +568,54 @@ def schema_src(sch: Schema, top=None) -> str:
         out.append("@dataclass")
         out.append(f"class {c['name']}" + (f"({base}):" if base else ":"))
         for fn, ft in c["fields"]:
+            d = c.get("defaults", {}).get(fn)
             if ft[0] == "pass":
                 out.append(f"    {fn}: {ty_src(ft, sch)} = field(metadata={{'serialization_strategy': pass_through}})")
+            elif d and d.startswith("="):
+                out.append(f"    {fn}: {ty_src(ft, sch)} {d}")
+            elif d:
+                out.append(f"    {fn}: {ty_src(ft, sch)} = field(default_factory={d})")
             else:
                 out.append(f"    {fn}: {ty_src(ft, sch)}")
         out.append("    class Config(BaseConfig):")
         out.append("        serialization_strategy = {Opaque: pass_through}")
         if c["sup"]:
             out.append("        code_generation_options = [ADD_DIALECT_SUPPORT]")
+        if c.get("lazy"):
+            out.append("        lazy_compilation = True")      # methods compiled on first use: same sharing behaviour
         if c["dialect"] is not None:
             out.append(f"        dialect = D{c['dialect']}")
         out.append("")
     if top is not None:
         emit_records(top)
     return "\n".join(out)
+
+
+def default_of(ft):
+    """a default for a field of this type: default_factory for the mutable containers, a literal for atoms"""
+    t = strip_wrappers(ft)
+    if wrapper_of(ft) and wrapper_of(ft)[0] == "final":
+        return None
+    if bare_spelling(t):
+        t = t[:-1]
+    if t[0] == "seq" and t[1] in ("list", "set", "deque", "MutableSequence", "Sequence"):
+        return {"list": "list", "set": "set", "deque": "collections.deque", "MutableSequence": "list", "Sequence": "list"}[t[1]]
+    if t[0] == "map" and t[1] in ("dict", "OrderedDict", "Mapping", "MutableMapping"):
+        return {"dict": "dict", "OrderedDict": "collections.OrderedDict", "Mapping": "dict", "MutableMapping": "dict"}[t[1]]
+    if t[0] == "atom" and t[1] in ("int", "str"):
+        return "=7" if t[1] == "int" else "='dflt'"
+    return None
+
+
+def add_defaults(rng, c):
+    """give some fields a default / default_factory; defaulted fields go last (dataclass rule)"""
+    dfl = {}
+    for fn, ft in c["fields"]:
+        d = default_of(ft) if ft[0] != "pass" else None
+        if d and rng.random() < 0.3:
+            dfl[fn] = d
+    c["defaults"] = dfl
+    c["fields"] = [f for f in c["fields"] if f[0] not in dfl] + [f for f in c["fields"] if f[0] in dfl]
 
 
 def field_order(c):
@@ -723,11 +771,11 @@ def gen_value_src(rng, t, sch: Schema, depth: int, wire: bool = False) -> str:
             NATURAL[0] = old
     if k == "dc":
         c = sch.classes[t[1]]
+        dfl = c.get("defaults", {})
+        keep = [(fn, ft) for fn, ft in c["fields"] if fn not in dfl or rng.random() < 0.5]
         if wire:
-            return "{" + ", ".join(f"{fn!r}: " + gen_value_src(rng, ft, sch, depth - 1, True)
-                                   for fn, ft in c["fields"]) + "}"
-        return c["name"] + "(" + ", ".join(f"{fn}=" + gen_value_src(rng, ft, sch, depth - 1, False)
-                                           for fn, ft in c["fields"]) + ")"
+            return "{" + ", ".join(f"{fn!r}: " + gen_value_src(rng, ft, sch, depth - 1, True) for fn, ft in keep) + "}"
+        return c["name"] + "(" + ", ".join(f"{fn}=" + gen_value_src(rng, ft, sch, depth - 1, False) for fn, ft in keep) + ")"
     raise ValueError(t)
 
 
@@ -1504,6 +1552,12 @@ def run_case(c: Case):
     except Exception as e:       # noqa
         c.res = None
         c.exc = f"{type(e).__name__}: {e}"
+    c.res2 = None
+    if c.exc is None:
+        try:
+            c.res2 = eval(c.call_src, ns)
+        except Exception:       # noqa
+            c.res2 = None
     c.after = snapshot(c.v)
     return c
 
@@ -1589,6 +1643,17 @@ def oracle(ctx, c: Case):
                  replay_dict(c, {"shared_paths": describe(shared.values(), c)}, {"shared_paths": describe(exp_ids.values(), c)}),
                  {**sig_base, "kind": "missed-share", "cause": cause})
         failed = True
+    # two calls: their results may have nothing mutable in common but objects of the argument (a shared default
+    # object or a cached container would be hidden sharing between results)
+    if c.res2 is not None:
+        ids2 = {id(o) for _, o in walk(c.res2) if is_mutable(o)}
+        common = [o for i, o in res_ids.items() if i in ids2 and i not in in_ids]
+        if common:
+            ctx.fail(f"{c.side}: two calls of {c.call_src} return structures that share mutable container(s) "
+                     f"{[type(o).__name__ for o in common][:4]} that are not the argument's",
+                     replay_dict(c, "results of two calls share new containers", "disjoint apart from the argument's objects"),
+                     {**sig_base, "kind": "results-share"})
+            failed = True
     # behavioural double check: damaging what is new in the result must not reach the argument
     keep = {id(o) for _, o in walk(c.v)}
     mutate_fresh(c.res, keep)
@@ -1640,7 +1705,8 @@ def expected_any(t, w, sch: Schema, out: list):
                 expected_any(m, w, sch, out)
     elif k == "dc":
         for fn, ft in sch.classes[t[1]]["fields"]:
-            expected_any(ft, w[fn], sch, out)
+            if fn in w:
+                expected_any(ft, w[fn], sch, out)
 
 
 def wire_fits(t, w, sch: Schema) -> bool:
@@ -1675,7 +1741,8 @@ def wire_fits(t, w, sch: Schema) -> bool:
         return any(wire_fits(m, w, sch) for m in t[1])
     if k == "dc":
         c = sch.classes[t[1]]
-        return isinstance(w, dict) and all(fn in w and wire_fits(ft, w[fn], sch) for fn, ft in c["fields"])
+        return isinstance(w, dict) and all((fn in w and wire_fits(ft, w[fn], sch)) or (fn not in w and fn in c.get("defaults", {}))
+                                           for fn, ft in c["fields"])
     return False
 
 
@@ -1716,6 +1783,10 @@ def coq_wire(w, t, sch, labels) -> str:
         return f"(VMap KDict {lab} [{kvs}])"
     if k == "opt" and w is not None:
         return coq_wire(w, t[1], sch, labels)
+    if k == "union":
+        for m in t[1]:
+            if wire_fits(m, w, sch):
+                return coq_wire(w, m, sch, labels)
     if k == "seq" and isinstance(w, list):
         return f"(VSeq KList {labels[id(w)]} [" + "; ".join(coq_wire(x, t[2], sch, labels) for x in w) + "])"
     if k == "tupv" and isinstance(w, list):
